@@ -80,7 +80,7 @@ def rule_relabel(lines, rng):
     qs = sorted({int(x) for l in lines for x in re.findall(r"(?<![\[\w.(-])(\d+)(?![\w.\])])", re.sub(r"\([^)]*\)", "", l)) if "rec[" not in x})
     if not qs:
         return None
-    perm = rng.permutation(np.arange(0, 12))[: len(qs)]
+    perm = rng.permutation(np.arange(0, max(12, len(qs) + 2)))[: len(qs)]
     mp = {q: int(p) for q, p in zip(qs, perm)}
 
     def rel(line):
@@ -213,6 +213,37 @@ def run(ctx: Ctx) -> int:
         if dd > tol:
             ctx.violation(f"rewrite-{rname}:" + text2.replace("\n", ";")[:60],
                           f"rule {rname}: the exact output distribution changed by {dd:.3g}", {"original": text, "rewritten": text2, "det": det, "rule": rname})
+    # correlated-error chains with a transparent instruction inserted BETWEEN the links (Stim keeps the chain across TICK, coords,
+    # identities and gates on other qubits)
+    for _ in range(10 if ctx.quick else 150):
+        if time.time() > deadline + 30:
+            break
+        nq = int(rng.integers(2, 4))
+        pre = [f"{['H', 'SQRT_X', 'S', 'H_YZ'][int(rng.integers(0, 4))]} {q}" for q in range(nq) if rng.random() < 0.7]
+        links = []
+        for j in range(int(rng.integers(2, 4))):
+            qs = rng.choice(nq, size=int(rng.integers(1, nq + 1)), replace=False)
+            links.append(f"{'E' if j == 0 else 'ELSE_CORRELATED_ERROR'}({[0.125, 0.25, 0.5, 1.0][int(rng.integers(0, 4))]}) " +
+                         " ".join(f"{'XYZ'[int(rng.integers(0, 3))]}{int(q)}" for q in qs))
+        post = ["M " + " ".join(map(str, range(nq)))] if rng.random() < 0.6 else ["MX " + " ".join(map(str, range(nq)))]
+        spare = nq   # a qubit not used by the chain
+        ins = [["TICK"], ["SHIFT_COORDS(0, 1)"], [f"QUBIT_COORDS(1, 2) {spare}"], [f"I {int(rng.integers(0, nq))}"], [f"H {spare}"], ["TICK", f"X {spare}"]][int(rng.integers(0, 6))]
+        k = int(rng.integers(1, len(links)))
+        text = "\n".join(pre + links + post)
+        text2 = "\n".join(pre + links[:k] + ins + links[k:] + post)
+        try:
+            d1, _ = tsim_dist(tsim.Circuit(text))
+            d2, _ = tsim_dist(tsim.Circuit(text2))
+        except Exception as e:
+            ctx.violation("rewrite-raises-chain:" + text2.replace("\n", ";")[:50], f"tsim raised {e!r} on a rewritten circuit", {"original": text, "rewritten": text2, "det": False})
+            continue
+        # the inserted gate may act on a spare qubit that is not measured: compare the distributions of the measured qubits only
+        dd = dist_diff(d1, d2)
+        ctx.count(("chain", text, text2), nontrivial=len([p_ for p_ in d1.values() if p_ > 1e-9]) > 1, bucket="insert-inside-chain")
+        if dd > tolerance(False):
+            ctx.violation("rewrite-insert-inside-chain:" + text2.replace("\n", ";")[:60],
+                          f"inserting {ins} between the links of a correlated-error chain changed the exact output distribution by {dd:.3g}",
+                          {"original": text, "rewritten": text2, "det": False, "rule": "insert-inside-chain"})
     # beyond the reference simulator: wider Clifford+T circuits, few measured qubits
     big = 4 if ctx.quick else 40
     for _ in range(big):
@@ -232,7 +263,10 @@ def run(ctx: Ctx) -> int:
         meas = sorted(int(x) for x in rng.choice(nq, size=6, replace=False))
         lines.append("M " + " ".join(map(str, meas)))
         text = "\n".join(lines)
-        r = [rule_layout, rule_relabel, rule_equiv, rule_commute, rule_split][int(rng.integers(0, 5))](lines, rng)
+        try:
+            r = [rule_layout, rule_relabel, rule_equiv, rule_commute, rule_split][int(rng.integers(0, 5))](lines, rng)
+        except Exception:
+            r = None
         if r is None:
             continue
         text2 = "\n".join(r[0])
